@@ -5,6 +5,7 @@ import (
 	"fmt"
 	"runtime"
 	"sync"
+	"sync/atomic"
 	"time"
 
 	client "github.com/wundergraph/graphql-go-tools/v2/pkg/engine/datasource/graphql_datasource/subscriptionclient"
@@ -19,15 +20,35 @@ type outcome struct {
 	stats        client.Stats
 	aidExpired   []string
 	idleWaited   bool // waited out a pending idle timer on a reused connection with live subscriptions
-	joinedDial   int // subscriptions started while an un-acked connection of their tuple existed (probable dial joiners)
+	joinedDial   int  // subscriptions started while an un-acked connection of their tuple existed (probable dial joiners)
 }
 
-func (o *outcome) incon(f string, a ...any) { o.inconclusive = append(o.inconclusive, fmt.Sprintf(f, a...)) }
+// established is set once this process has reported a time-based violation (liveness or quiescence)
+// after the full watchdog and both re-samples. The verdict of the run is fixed from then on (replay file
+// written, exit 1); paying another watch+2*grace for every further expiry - shrink attempts, saved
+// regression cases, the other parts - only makes a broken tree take minutes to report. Later expiries
+// therefore end the execution as inconclusive after fastWatch. Consequence: time-based violations are not
+// shrunk (the replay is the first, fully established case); nothing is ever reported on less than the
+// full grace.
+var established atomic.Bool
+
+const fastWatch = 1500 * time.Millisecond
+
+func (o *outcome) incon(f string, a ...any) {
+	o.inconclusive = append(o.inconclusive, fmt.Sprintf(f, a...))
+}
 
 // expect waits for an event that the client is obliged to produce. Expiry of the first watchdog is
 // not a verdict: the predicate is re-sampled twice after a long grace period before the absence is
 // reported (DESIGN §5: time is never a correctness signal except as a last-resort liveness watchdog).
 func (o *outcome) expect(what string, pred func() bool) bool {
+	if established.Load() {
+		if o.w.wait(fastWatch, 0, pred) {
+			return true
+		}
+		o.incon("after-established-violation: %s", what)
+		return false
+	}
 	if o.w.wait(watch, 0, pred) {
 		return true
 	}
@@ -218,7 +239,7 @@ func (o *outcome) step(s Step) bool {
 			// so that the next step does not race with the close.
 			o.aid("conn-closed-after-last-terminal", func() bool { return w.liveOn(uc) > 0 || uc.closed })
 		}
-	case "cancel":
+	case "cancel", "expire":
 		i := s.Sub
 		st := w.subs[i]
 		w.mu.Lock()
@@ -231,7 +252,11 @@ func (o *outcome) step(s Step) bool {
 			}
 		}
 		w.mu.Unlock()
-		w.cancelSub(i, true)
+		if s.Op == "expire" {
+			w.expireSub(i)
+		} else {
+			w.cancelSub(i, true)
+		}
 		w.mu.Lock()
 		started := st.started
 		w.mu.Unlock()
@@ -391,7 +416,7 @@ func (o *outcome) burst() {
 		k := s.Tuple
 		gated := c.Tuples[k].Gate
 		if s.Cancel == "pre" {
-			w.cancelSub(i, true)
+			w.endSub(i, true, s.Deadline)
 		}
 		w.mu.Lock()
 		if !c.Tuples[k].SSE && w.pendingInit(k) {
@@ -404,7 +429,7 @@ func (o *outcome) burst() {
 			for y := 0; y < s.At; y++ {
 				runtime.Gosched()
 			}
-			w.cancelSub(i, true)
+			w.endSub(i, true, s.Deadline)
 		case "init":
 			cw.Add(1)
 			go func() {
@@ -413,14 +438,14 @@ func (o *outcome) burst() {
 					w.wait(watch, 0, func() bool { return st.returned || st.seen > 0 || w.pendingInit(k) })
 					time.Sleep(settle)
 				}
-				w.cancelSub(i, true)
+				w.endSub(i, true, s.Deadline)
 			}()
 		case "mid":
 			cw.Add(1)
 			go func() {
 				defer cw.Done()
 				w.wait(watch, 0, func() bool { return len(st.msgs) >= s.At || st.terminalAt() >= 0 || (st.returned && st.err != nil) })
-				w.cancelSub(i, true)
+				w.endSub(i, true, s.Deadline)
 			}()
 		}
 	}
@@ -550,6 +575,13 @@ func (o *outcome) finish() {
 		return s.WSConns == 0 && s.SSEConns == 0
 	}
 	idle := time.Duration(c.IdleMs) * time.Millisecond
+	if established.Load() {
+		if !w.wait(idle+fastWatch, time.Millisecond, quiet) {
+			o.incon("after-established-violation: quiescence")
+		}
+		o.stats = w.cl.Stats()
+		return
+	}
 	if w.wait(idle+watch, time.Millisecond, quiet) || w.wait(grace, 20*time.Millisecond, quiet) || w.wait(grace, 20*time.Millisecond, quiet) {
 		o.stats = w.cl.Stats()
 		return
